@@ -76,7 +76,11 @@ type Src struct {
 }
 
 func (s *Src) begin(ctx context.Context) int {
+	s.mu.Lock()
 	n := int(atomic.AddInt32(&s.Subs, 1)) - 1
+	s.SubCtxs = append(s.SubCtxs, ctx)
+	s.tdCount = append(s.tdCount, 0)
+	s.mu.Unlock()
 	l := atomic.AddInt32(&s.Live, 1)
 	for {
 		m := atomic.LoadInt32(&s.MaxLive)
@@ -84,10 +88,6 @@ func (s *Src) begin(ctx context.Context) int {
 			break
 		}
 	}
-	s.mu.Lock()
-	s.SubCtxs = append(s.SubCtxs, ctx)
-	s.tdCount = append(s.tdCount, 0)
-	s.mu.Unlock()
 	return n
 }
 
@@ -99,7 +99,9 @@ func (s *Src) teardown(n int) ro.Teardown {
 		atomic.AddInt32(&s.Teardowns, 1)
 		atomic.AddInt32(&s.Live, -1)
 		s.mu.Lock()
-		s.tdCount[n]++
+		if n < len(s.tdCount) {
+			s.tdCount[n]++
+		}
 		s.mu.Unlock()
 		if s.OnTeardown != nil {
 			s.OnTeardown(n)
